@@ -145,6 +145,12 @@ FloatOps == {"stored", "stores", "loadd", "loads", "exts", "truncd", "stosi", "s
              "ceqs", "cnes", "cles", "clts", "cges", "cgts", "ceqd", "cned", "cled", "cltd", "cged", "cgtd", "vastart", "vaarg"}
 
 ArgsDefined == \A k \in 1..Len(I.args) : Defined(I.args[k])
+(* floating point is outside this machine: an instruction of class s/d, with a floating constant operand, or a call passing  *)
+(* or returning a floating value stops the run as "unsupported" (Refine.tla then gives no verdict; il2c executes those)      *)
+IsFloatInst == \/ I.op \in FloatOps
+               \/ I.cls \in {"s", "d"}
+               \/ \E k \in 1..Len(I.args) : I.args[k].t = "flt"
+               \/ (I.op = "call" /\ \E k \in 1..Len(I.cargs) : I.cargs[k].cls \in {"s", "d"} \/ I.cargs[k].val.t = "flt")
 
 (* ---------------------------------------------------------------------------------- *)
 IPhi ==
@@ -154,7 +160,8 @@ IPhi ==
               S == {k \in 1..Len(p.srcs) : p.srcs[k].lbl = prev}
           IN IF S = {} THEN qstatus' = "phi-no-pred" /\ UNCHANGED tmp
              ELSE LET s == p.srcs[CHOOSE k \in S : TRUE].val
-                  IN IF ~Defined(s) THEN qstatus' = "undef-temp" /\ UNCHANGED tmp
+                  IN IF p.cls \in {"s", "d"} \/ s.t = "flt" THEN qstatus' = "unsupported-float-or-vararg" /\ UNCHANGED tmp
+                     ELSE IF ~Defined(s) THEN qstatus' = "undef-temp" /\ UNCHANGED tmp
                      ELSE SetTmp(p.res, p.cls, Val(s)) /\ UNCHANGED qstatus
   /\ ip' = 1 /\ Tick
   /\ UNCHANGED <<pid, fn, blk, prev, allocs, frames, qout, qret>>
@@ -162,7 +169,7 @@ IPhi ==
 InInst == Running /\ ip >= 1 /\ ip <= NInst /\ fuel > 0
 
 IArith ==
-  /\ InInst /\ I.op \in BinOps \cup CmpOps \cup ExtOps \cup {"neg", "copy"}
+  /\ InInst /\ I.op \in BinOps \cup CmpOps \cup ExtOps \cup {"neg", "copy"} /\ ~IsFloatInst
   /\ IF ~ArgsDefined THEN Stop("undef-temp")
      ELSE LET a == Val(I.args[1]) IN
        IF I.op \in BinOps THEN
@@ -177,7 +184,7 @@ IArith ==
             /\ Advance /\ Tick /\ UNCHANGED <<allocs, frames, qout, qstatus, qret>>
 
 ILoad ==
-  /\ InInst /\ I.op \in LoadOps
+  /\ InInst /\ I.op \in LoadOps /\ ~IsFloatInst
   /\ IF ~ArgsDefined THEN Stop("undef-temp")
      ELSE LET a == Val(I.args[1])  n == LoadSize(I.op) IN
        IF ~AddrOK(a, n) THEN Stop("memfault")
@@ -186,7 +193,7 @@ ILoad ==
             /\ Advance /\ Tick /\ UNCHANGED <<allocs, frames, qout, qstatus, qret>>
 
 IStore ==
-  /\ InInst /\ I.op \in StoreOps
+  /\ InInst /\ I.op \in StoreOps /\ ~IsFloatInst
   /\ IF ~ArgsDefined THEN Stop("undef-temp")
      ELSE LET v == Val(I.args[1])  a == Val(I.args[2])  n == StoreSize(I.op) IN
        IF ~AddrOK(a, n) THEN Stop("memfault")
@@ -206,7 +213,7 @@ IAlloc ==
 
 (* call of $obs: the observation point *)
 ICallObs ==
-  /\ InInst /\ I.op = "call" /\ I.callee.t = "glob" /\ I.callee.n = "obs"
+  /\ InInst /\ I.op = "call" /\ I.callee.t = "glob" /\ I.callee.n = "obs" /\ ~IsFloatInst
   /\ IF \E k \in 1..Len(I.cargs) : ~Defined(I.cargs[k].val) THEN Stop("undef-temp")
      ELSE /\ qout' = Append(qout, Norm(I.cargs[1].cls, Val(I.cargs[1].val)))
           /\ Advance /\ Tick /\ UNCHANGED <<tmp, allocs, frames, qstatus, qret>>
@@ -228,7 +235,7 @@ CopyArgs(k, al, vals, ok) ==
                           Append(vals, W(base)), ok)
 
 ICall ==
-  /\ InInst /\ I.op = "call" /\ ~(I.callee.t = "glob" /\ I.callee.n = "obs")
+  /\ InInst /\ I.op = "call" /\ ~(I.callee.t = "glob" /\ I.callee.n = "obs") /\ ~IsFloatInst
   /\ IF \E k \in 1..Len(I.cargs) : ~Defined(I.cargs[k].val) THEN Stop("undef-temp")
      ELSE IF CalleeIdx = 0 THEN Stop("unsupported-extern-call")
      ELSE LET g == Funcs[CalleeIdx] IN
@@ -244,7 +251,7 @@ ICall ==
                  /\ fn' = CalleeIdx /\ blk' = 1 /\ ip' = 0 /\ prev' = ""
                  /\ Tick /\ UNCHANGED <<pid, qout, qstatus, qret>>
 
-IFloat == InInst /\ I.op \in FloatOps /\ Stop("unsupported-float-or-vararg")
+IFloat == InInst /\ IsFloatInst /\ Stop("unsupported-float-or-vararg")
 
 AtJump == Running /\ ip = NInst + 1 /\ fuel > 0
 J == B.jump
